@@ -55,7 +55,11 @@ func init() {
 			"One API-key writer in twelve (header pool) spells its location oddly on the client side (Header, HEADER, Query, QUERY, hEaDeR, cookie, '', ' header', path): whether client.APIKeyAuth returns a writer at all is observed " +
 			"(none: nothing of the key is owed and a field holding no writer is 'no writer of its own'; a writer for a spelling that is header/query but for letter case: the key is owed there; else not judged) and classed for triage. " +
 			"A few lists hold a writer that returns an error, alone or inside Compose (request refused or built: classed; but a failing DEFAULT writer that is run although the default is owed to stay idle is a violation); " +
-			"PassThroughAuth alternates with a Compose of nothing but nil. Once per worker: every security authenticator handed a params value that is no request (nil, string, int) must not panic, " +
+			"PassThroughAuth alternates with a Compose of nothing but nil. Entry points: one wire or pipeline case in six and every other loopback case hand the operation to Runtime.Submit, Runtime.WithOpenTracing().Submit or Runtime.WithOpenTelemetry().Submit " +
+			"(wire channel: into a recording RoundTripper, no network) with an operation Context that is nil, plain, or carries a span (opentracing no-op tracer or mocktracer, a valid OpenTelemetry span context; either family with either wrapper): " +
+			"the whole default / per-operation / preset-header matrix and every other judgement apply unchanged. " +
+			"One pipeline requirement in four has two or three alternatives that all name ONE oauth2 scheme with pairwise different scope lists (callbacks mostly refusing, a query token added when the case has no bearer credential): " +
+			"the scope lists a scheme's callback is handed during one request, with multiplicities, must be found among the lists the alternatives give that scheme, each used at most once. Once per worker: every security authenticator handed a params value that is no request (nil, string, int) must not panic, " +
 			"consult its callback or return a principal (http.Request and ScopedAuthRequest by value: no panic only); security.APIKeyAuth[Ctx] with a location that is neither header nor query is driven and classed. " +
 			"non-trivial = a transmitted credential holds >= 1 byte outside [A-Za-z0-9], or >= 2 credentials/placements are present at once; distinct by the whole case",
 		Assumptions: []string{
@@ -69,6 +73,8 @@ func init() {
 			"an oddly spelled client-side key location (anything but exactly 'header' / 'query') is outside 'API-key (header or query)': that the client returns no writer for it, so that the credential is silently not sent and a transport-wide default takes over, is classed (client-apikey-in/...) and not judged; everything else about such a request is judged as usual",
 			"whether a request is built when one of its effective auth writers returns an error is not judged here (C12: pre-send faults); whether an authenticator handed a non-request reports 'not applicable' or an error is not judged, nor are nil requests",
 			"in the pipeline stream only what the application's callbacks and authorizer are handed is judged: which alternative is evaluated, in which order, and the status of the response are C02's; scope lists are compared as sets",
+			"one evaluation of one alternative consults the callback of a scheme at most once and no alternative is evaluated twice for one request, so k consultations of a scheme that n >= k alternatives name belong to k different alternatives (more than n consultations: classed, not judged)",
+			"the transports returned by Runtime.WithOpenTracing() / Runtime.WithOpenTelemetry() are entry points of the same Runtime: the statement's client-side rules (writers, transport-wide default) hold for an operation submitted to them, whatever its Context; the tracing headers they inject are no credentials and are not judged",
 			"the error returned next to 'not applicable' is not judged; realm and scheme-name markers are judged only where the code documents them (FailedBasicAuth after a missing or refused basic credential, OAuth2SchemeName after an applicable bearer credential)",
 		},
 		MinNontrivial: 500,
@@ -137,6 +143,10 @@ type Case struct {
 	// security, binder, operation) built over an API description whose operation carries a security requirement; the
 	// authenticators are registered with the API and consulted by the middleware (see pipeline.go).
 	Pipe *Pipe `json:"pipeline,omitempty"`
+	// Entry is the client entry point the operation is handed to, OpCtx the operation's Context (see entry.go):
+	// "" = Runtime.CreateHttpRequest (wire) / Runtime.Submit (loopback) with a nil Context, as ever
+	Entry string `json:"entry,omitempty"`
+	OpCtx string `json:"op_context,omitempty"`
 
 	orig *Case // set on the expanded working copy: the recorded (compact) form of the case
 }
@@ -266,11 +276,18 @@ func presetValue(p *Cred) string {
 	return string(p.Token)
 }
 
-func buildOperation(c *Case, host string) (*client.Runtime, *runtime.ClientOperation) {
+// buildOperation makes the client transport and the operation of the case. next = the RoundTripper at the end of the
+// transport's chain (nil = the default one: a socket).
+func buildOperation(c *Case, host string, next http.RoundTripper) (*client.Runtime, *runtime.ClientOperation) {
 	rt := client.New(host, "/v1"+staticQuery(c.BaseQuery), []string{"http"})
 	rt.DefaultAuthentication = writersOf(c.Default, c.DefaultCompose, "default")
+	if next != nil {
+		rt.Transport = next
+	} else {
+		next = http.DefaultTransport
+	}
 	if c.CTSpell != "" && c.CTVia == "transport" {
-		rt.Transport = respeller{c: c, next: http.DefaultTransport}
+		rt.Transport = respeller{c: c, next: next}
 	}
 	op := &runtime.ClientOperation{
 		ID:                 "op",
@@ -281,6 +298,7 @@ func buildOperation(c *Case, host string) (*client.Runtime, *runtime.ClientOpera
 		Reader: runtime.ClientResponseReaderFunc(func(runtime.ClientResponse, runtime.Consumer) (interface{}, error) {
 			return nil, nil
 		}),
+		Context: opContext(c),
 	}
 	switch c.FormKind {
 	case "urlencoded":
@@ -813,11 +831,11 @@ type tcpResult struct {
 
 func submitTCP(c *Case) (res tcpResult) {
 	// runCase made sure that the server exists before the first Submit of a case
-	rt, op := buildOperation(c, strings.TrimPrefix(server().URL, "http://"))
+	rt, op := buildOperation(c, strings.TrimPrefix(server().URL, "http://"), nil)
 	srvMu.Lock()
 	srvCase, srvSeen = c, nil
 	srvMu.Unlock()
-	res.pv, res.st = mon.Catch(func() { _, res.err = rt.Submit(op) })
+	res.pv, res.st = mon.Catch(func() { _, res.err = transportOf(c, rt).Submit(op) })
 	srvMu.Lock()
 	res.hits = srvSeen
 	srvCase, srvSeen = nil, nil
@@ -867,31 +885,67 @@ func runCase(m *mon.M, c *Case) {
 
 	var obs []observation
 	var all [][]observation
+	if !knownEntry(c) {
+		m.Violate("bad-replay-case", fmt.Sprintf("unknown entry point %q or operation context %q", c.Entry, c.OpCtx), nil)
+		return
+	}
 	if !c.TCP {
-		rt, op := buildOperation(c, "api.example.test:8080")
-		var req *http.Request
+		var wire []byte
 		var err error
-		pv, st := mon.Catch(func() { req, err = rt.CreateHttpRequest(op) })
-		if pv != nil {
-			m.Violate("client-panic", fmt.Sprintf("CreateHttpRequest panicked: %v\n%s", pv, st), rep(c))
-			return
+		if c.Entry == "" {
+			rt, op := buildOperation(c, "api.example.test:8080", nil)
+			var req *http.Request
+			pv, st := mon.Catch(func() { req, err = rt.CreateHttpRequest(op) })
+			if pv != nil {
+				m.Violate("client-panic", fmt.Sprintf("CreateHttpRequest panicked: %v\n%s", pv, st), rep(c))
+				return
+			}
+			if failingVerdict(m, c, e, err) {
+				return
+			}
+			if err != nil {
+				m.Violate("client-build-error", "CreateHttpRequest failed: "+err.Error(), rep(c))
+				return
+			}
+			if c.CTSpell != "" && c.CTVia == "transport" {
+				req = respellRequest(c, req) // what the transport's RoundTripper does on the way out (TCP cases: respeller.RoundTrip)
+			}
+			var buf bytes.Buffer
+			if err := req.Write(&buf); err != nil {
+				m.Violate("request-not-serialisable", "Request.Write failed: "+err.Error(), rep(c))
+				return
+			}
+			wire = buf.Bytes()
+		} else {
+			// the same operation through Submit (of the Runtime or of one of its tracing wrappers), into a recording RoundTripper
+			rec := &recorder{}
+			rt, op := buildOperation(c, "api.example.test:8080", rec)
+			pv, st := mon.Catch(func() { _, err = transportOf(c, rt).Submit(op) })
+			if pv != nil {
+				m.Violate("client-panic"+entryFeature(c), fmt.Sprintf("Submit panicked: %v\n%s", pv, st), rep(c))
+				return
+			}
+			if failingVerdict(m, c, e, err) {
+				return
+			}
+			rec.mu.Lock()
+			wires, werr := rec.wires, rec.werr
+			rec.mu.Unlock()
+			switch {
+			case werr != nil:
+				m.Violate("request-not-serialisable", "Request.Write failed: "+werr.Error(), rep(c))
+				return
+			case err != nil:
+				m.Violate("client-build-error"+entryFeature(c), "Submit into a recording RoundTripper failed: "+err.Error(), rep(c))
+				return
+			case len(wires) == 0:
+				m.Violate("request-never-sent"+entryFeature(c), "Submit returned no error, yet the transport's RoundTripper was handed no request", rep(c))
+				return
+			case len(wires) > 1:
+				m.Violate("request-sent-more-than-once"+entryFeature(c), fmt.Sprintf("one Submit handed the transport's RoundTripper %d requests; the first is judged", len(wires)), rep(c))
+			}
+			wire = wires[0]
 		}
-		if failingVerdict(m, c, e, err) {
-			return
-		}
-		if err != nil {
-			m.Violate("client-build-error", "CreateHttpRequest failed: "+err.Error(), rep(c))
-			return
-		}
-		if c.CTSpell != "" && c.CTVia == "transport" {
-			req = respellRequest(c, req) // what the transport's RoundTripper does on the way out (TCP cases: respeller.RoundTrip)
-		}
-		var buf bytes.Buffer
-		if err := req.Write(&buf); err != nil {
-			m.Violate("request-not-serialisable", "Request.Write failed: "+err.Error(), rep(c))
-			return
-		}
-		wire := buf.Bytes()
 		obs, err = probeAll(c, func() (*http.Request, error) {
 			return http.ReadRequest(bufio.NewReader(bytes.NewReader(wire)))
 		})
@@ -958,6 +1012,10 @@ func runCase(m *mon.M, c *Case) {
 		all = [][]observation{obs}
 	}
 	m.Class("channel/" + channel(c))
+	if c.Entry != "" || c.OpCtx != "" {
+		m.Class("entry/" + channel(c) + entryFeature(c))
+		m.SetAdd("entry-x-auth-matrix", fmt.Sprintf("%s ctx=%s default=%v op=%v preset=%v", c.Entry, c.OpCtx, len(c.Default) > 0, c.HasOpAuth, c.Preset != nil))
+	}
 	if c.CTSpell != "" {
 		m.Class("form-content-type/" + c.FormKind + "/" + c.CTSpell + "-via-" + c.CTVia)
 	}
@@ -1109,7 +1167,7 @@ func judge(m *mon.M, c *Case, e *expectation, o *observation) {
 		again = "/request-consulted-again"
 	}
 	// ... and so does a credential that does not arrive as written while the transport dumps what it sends (see optFeature)
-	sent := again + optFeature(c)
+	sent := again + optFeature(c) + entryFeature(c)
 	if o.panicked != "" {
 		m.Violate(lab+"/authenticator-panic"+again, "Authenticate panicked: "+o.panicked, rep(c))
 		return
@@ -1557,6 +1615,9 @@ func run(m *mon.M) {
 	n := m.N(20000, 250000)
 	for i := 0; i < n; i++ {
 		c := genCase(r)
+		if r.Intn(6) == 0 {
+			addEntry(r, c) // through Submit (of the Runtime or a tracing wrapper) into a recording RoundTripper
+		}
 		m.Begin(c)
 		runCase(m, c)
 	}
@@ -1567,6 +1628,9 @@ func run(m *mon.M) {
 		c := genCase(rt)
 		c.TCP = true
 		addClientOpts(rt, c) // settings of the transport that only Submit looks at
+		if rt.Intn(2) == 0 {
+			addEntry(rt, c) // the tracing wrappers of the Runtime, an operation context with or without a span
+		}
 		if rt.Intn(10) == 0 {
 			addPipe(rt, c)
 		}
@@ -1579,6 +1643,9 @@ func run(m *mon.M) {
 	for i := 0; i < np; i++ {
 		c := genCase(rp)
 		addPipe(rp, c)
+		if rp.Intn(6) == 0 {
+			addEntry(rp, c)
+		}
 		m.Begin(c)
 		runCase(m, c)
 	}
